@@ -88,6 +88,47 @@ example : validateProve liveParams 0 (0 :: List.replicate 79 0x10) 0 0 10 = .res
   · decide +kernel
   · unfold Vrf.ofBig Vrf.toBig; rw [Rangers.Proofs.C16Bytes.natToBE_beToNat]; decide
 
+/-! ### one normalisation: the verifier and the lottery read the same 80 bytes -/
+
+/-- the bytes of a header prove value that matter: the first `ProveSize` bytes of its left-padded form -/
+def verifiedBytes (pv : Bytes) : Bytes := (Vrf.tryZeroPadding pv).take 80
+
+theorem verifiedBytes_length (pv : Bytes) : (verifiedBytes pv).length = 80 := by
+  have := Rangers.Proofs.C16Bytes.pad_length_ge pv
+  simp only [Vrf.proveSize] at this
+  simp [verifiedBytes]; omega
+
+theorem pad_verifiedBytes (pv : Bytes) : Vrf.tryZeroPadding (verifiedBytes pv) = verifiedBytes pv :=
+  Rangers.Proofs.C16Bytes.pad_of_len_ge _ (by rw [verifiedBytes_length]; decide)
+
+/-- For EVERY byte string `pv` (any length): `ECVRFVerify` decides on `verifiedBytes pv` only. -/
+theorem verify_reads_verifiedBytes {P : Type} (o : Vrf.Ops P) (pk pv m : Bytes) :
+    Vrf.verifyWith o pk pv m = Vrf.verifyWith o pk (verifiedBytes pv) m := by
+  rw [Rangers.Proofs.C16Vrf.verifyWith_eq_parts, Rangers.Proofs.C16Vrf.verifyWith_eq_parts o pk (verifiedBytes pv),
+    pad_verifiedBytes]
+  unfold verifiedBytes
+  simp only [List.take_take, List.drop_take]
+  rfl
+
+/-- … and every consumer of the lottery value (`validateProve`, `outputOf`, `VRFProve2Value`) reads the
+    first 32 of exactly those bytes: verifier and qualification rule look at the same 80 bytes. -/
+theorem lottery_reads_verifiedBytes (P : Params) (thr : Nat) (pv : Bytes) (h w t : Nat) :
+    validateProve P thr pv h w t = validateProve P thr (verifiedBytes pv) h w t ∧
+    Vrf.outputOf pv = (verifiedBytes pv).take 32 ∧
+    Vrf.prove2Value (Vrf.toBig pv) = some (beToNat ((verifiedBytes (Vrf.ofBig (Vrf.toBig pv))).take 32)) := by
+  refine ⟨?_, ?_, ?_⟩
+  · unfold validateProve calcVrfValueRatio
+    rw [pad_verifiedBytes]
+    simp [verifiedBytes, List.take_take]
+  · simp [Vrf.outputOf, verifiedBytes, List.take_take]
+  · have hl : ¬ (Vrf.tryZeroPadding (Vrf.ofBig (Vrf.toBig pv))).length < 32 := by
+      have := Rangers.Proofs.C16Bytes.pad_length_ge (Vrf.ofBig (Vrf.toBig pv))
+      simp only [Vrf.proveSize] at this; omega
+    simp [Vrf.prove2Value, Vrf.proof2Hash, hl, verifiedBytes, List.take_take]
+
+/-- non-vacuity: an over-long value (prefix ‖ 80 bytes) — the bytes that matter are the FIRST 80 -/
+example : verifiedBytes ([9, 9] ++ List.replicate 80 7) = [9, 9] ++ List.replicate 78 7 := by decide
+
 /-- FULL STATEMENT (false of model and code): an accepted proof has `1 ≤ qn ≤ MaxQN`. -/
 def FullStatement_qn_range (P : Params) : Prop :=
   ∀ thr prove h w t q, validateProve P thr prove h w t = .res true (.val q) → 1 ≤ q ∧ q ≤ P.maxQN
